@@ -536,6 +536,21 @@ func (sl *StructLiteral) AddField(field string, value Expr) {
 	sl.elts = append(sl.elts, fieldVal{field, value})
 }
 
+// bindsLooserThanFieldInit reports whether e is printed with an operator that
+// binds looser than the "f ::= v" notation (level 60): the comparison
+// operators are at level 70, so such a field value needs parentheses.
+func bindsLooserThanFieldInit(e Expr) bool {
+	be, ok := e.(BinaryExpr)
+	if !ok {
+		return false
+	}
+	switch be.Op {
+	case OpEquals, OpNotEquals, OpLessThan, OpGreaterThan, OpLessEq, OpGreaterEq:
+		return true
+	}
+	return false
+}
+
 func (sl StructLiteral) Coq(needs_paren bool) string {
 	var pp buffer
 	method := "struct.mk"
@@ -549,7 +564,8 @@ func (sl StructLiteral) Coq(needs_paren bool) string {
 		if i == len(sl.elts)-1 {
 			terminator = ""
 		}
-		pp.Add("%s ::= %s%s", quote(f.Field), f.Value.Coq(false), terminator)
+		pp.Add("%s ::= %s%s", quote(f.Field),
+			f.Value.Coq(bindsLooserThanFieldInit(f.Value)), terminator)
 	}
 	pp.Indent(-2)
 	pp.Add("]")
